@@ -511,7 +511,7 @@ func main() {
 		return
 	}
 
-	rounds := c.N(1, 20)
+	rounds := c.N(1, 4)
 	nmut := c.N(1, 6)
 	foreignEvery := c.N(3, 1)
 	// which (round 0) lengths go to the Coq correspondence; the VM evaluates SHA/AES itself (~0.5 s
@@ -521,10 +521,10 @@ func main() {
 	hashEmit := map[int]bool{0: true, 235: true}
 	hashReal := map[int]bool{}
 	if c.Thorough() {
-		for _, l := range []int{1, 2, 15, 16, 17, 31, 32, 33, 72, 100, 128, 142, 143} {
+		for _, l := range []int{1, 15, 16, 32, 72, 143} {
 			padEmit[l] = true
 		}
-		for _, l := range []int{1, 19, 20, 21, 63, 64, 65, 120, 180, 200, 220, 233, 234} {
+		for _, l := range []int{1, 20, 64, 120, 200, 234} {
 			hashEmit[l] = true
 		}
 		hashReal[235] = true
@@ -669,7 +669,7 @@ func main() {
 				continue
 			}
 			// the guessing loop hashes 236-len(data) prefixes: only long data fits the VM budget
-			h.hashDec(k, ct, data, emit && l >= c.N(230, 180), "honest", "")
+			h.hashDec(k, ct, data, emit && l >= c.N(230, 200), "honest", "")
 			ms, cl := h.mutants(ct, nmut)
 			for i := range ms {
 				h.hashDec(k, ms[i], nil, emit && i == 0, cl[i], "")
